@@ -98,6 +98,8 @@ M = [
  ("C20-validate-basic-only", "C20", "pybads/bads/options.py", "        for options_path in options_paths:\n            file_option_names.update(", "        for options_path in options_paths[-1:]:\n            file_option_names.update("),
  ("C16-update-fallback-removed", "C16", "pybads/bads/gaussian_process_train.py", "    try:\n        gp.update(hyp=hyp_gp)\n    except np.linalg.LinAlgError:", "    try:\n        gp.update(hyp=hyp_gp)\n    except ZeroDivisionError:"),
  ("C02-final-noise-no-cons", "C02", "pybads/bads/bads.py", "            self.u = self.iteration_history.get(\"u\")[min_q_beta_idx]\n            self.u_best = self.u.copy()", "            self.u = self.iteration_history.get(\"u\")[min_q_beta_idx] + (self.mesh_size if self.non_box_cons is not None else 0.0)\n            self.u_best = self.u.copy()"),
+
+ ("C15-refpoint-stale", "C15", "pybads/bads/bads.py", "                gp, gp_exit_flag = local_gp_fitting(\n                    gp,\n                    self.u,\n                    self.function_logger,\n                    self.options,\n                    self.optim_state,\n                    self.iteration_history,\n                    refit_flag,\n                )\n                if refit_flag:\n                    self.gp_refitted_flag = True\n                self.gp_exit_flag = np.minimum(self.gp_exit_flag, gp_exit_flag)\n\n            # Update Target from GP prediction\n            f_target_mu, f_target_s, f_target = self._get_target_from_gp_(\n                u_poll_best", "                gp, gp_exit_flag = local_gp_fitting(\n                    gp,\n                    self.optim_state[\"usuccess\"],\n                    self.function_logger,\n                    self.options,\n                    self.optim_state,\n                    self.iteration_history,\n                    refit_flag,\n                )\n                if refit_flag:\n                    self.gp_refitted_flag = True\n                self.gp_exit_flag = np.minimum(self.gp_exit_flag, gp_exit_flag)\n\n            # Update Target from GP prediction\n            f_target_mu, f_target_s, f_target = self._get_target_from_gp_(\n                u_poll_best"),
 ]
 
 
